@@ -47,7 +47,13 @@ func VerifC15Resume() {
 		threads := st["threads"].(map[string]map[string]interface{})
 		if t, ok := threads["7"]; ok {
 			if r, ok := t["threadRunning"]; ok && r == false {
-				dbg.Continue(7, util.Resume)
+				// the first command may be a step (the thread then suspends again on its next line through the
+				// re-suspension path); every later one resumes
+				cmd := util.Resume
+				if continues == 0 {
+					cmd = c15Conts[zz.Param("FIRSTCMD", 0)]
+				}
+				dbg.Continue(7, cmd)
 				continues++
 			}
 		}
